@@ -77,10 +77,11 @@ class Sodium(material.Fluid):
         g = 511.58
         h = 0.5
         Tcrit = 2503.7  # critical temperature
+        # zero at the critical temperature, where the valid range ends: rounding must not make it
+        # negative there (the fractional power of a negative number is complex)
+        reducedT = max(0.0, 1 - (Tc + 273.15) / Tcrit)
         return (
-            critDens
-            + f * (1 - (Tc + 273.15) / Tcrit)
-            + g * (1 - (Tc + 273.15) / Tcrit) ** h
+            critDens + f * reducedT + g * reducedT**h
         ) / 1000.0  # convert from kg/m^3 to g/cc.
 
     def specificVolumeLiquid(self, Tk=None, Tc=None):
